@@ -769,10 +769,49 @@ def check_tree_links(prog, rep, m):
                 bool(cols) and a_ == b_, 'every recolouring in one half of the fix-up must have its mirror image in the other half')
 
 
+def check_query_exits(prog, rep, m):
+    """T12: the visibility test in the sweep is `max gradient of nearer cells <= own gradient`.  The tree query may
+    return before it has seen every nearer cell only when the caller's answer can no longer change, i.e. when the value
+    it returns is already STRICTLY above the queried gradient; an early return on `>=` reports a tie as the maximum
+    while a taller blocker is still unseen."""
+    entry = 'viewshed status tree'
+    f = m.funcs.get('_find_max_value_within_key')
+    if f is None:
+        raise AnalysisIncomplete('_find_max_value_within_key not found')
+    k = interpret(prog, f, strict=False)
+    gname = f.params[-1]
+    G = Rat.sym(gname)
+    n = 0
+    for v, guards in k.returns:
+        if not isinstance(v, Rat):
+            continue
+        for g in guards:
+            if g[0] != 'cmp' or g[1] not in ('<', '<='):
+                continue
+            if _pos_multiple(g[3], G - v):
+                n += 1
+                rep.add('T12', f, entry, 'early return of %s under %s' % (show(v, 50), cond_repr_short(g)), f.node.lineno,
+                        g[1] == '<', 'an early return is admissible only when the returned maximum is strictly greater than the '
+                        'queried gradient (the caller tests max <= gradient: on a tie it would report the cell visible although a '
+                        'taller, not yet visited blocker may exist)')
+            elif _pos_multiple(g[3], v - G):
+                n += 1
+                rep.add('T12', f, entry, 'early return of %s under %s' % (show(v, 50), cond_repr_short(g)), f.node.lineno, False,
+                        'a return taken because the running maximum is still below the queried gradient ends the search before the '
+                        'nearer cells have been examined')
+    return n
+
+
+def cond_repr_short(g):
+    from ..kai import cond_repr
+    return cond_repr(g)[:90]
+
+
 def check(prog, rep):
     m = prog.module('viewshed')
     check_sweep_skeleton(prog, rep, m)
     check_tree_links(prog, rep, m)
+    check_query_exits(prog, rep, m)
     check_tables(prog, rep, m)
     check_layouts(prog, rep, m)
     check_encoding(prog, rep, m)
@@ -787,3 +826,4 @@ def check(prog, rep):
     rep.floor('T10', 2)
     rep.floor('T11', 7)
     rep.floor('T9', 8)
+    rep.floor('T12', 2)
